@@ -35,9 +35,9 @@ EXT = ["sersic", "exp", "dev", "doublesersic", "sersic_exp"]
 def correspondence(ctx):
     rng = ctx.rng("corr")
     scenes = []
-    for kind, N, psf, opts in RC.standard_configs(rng, ctx.tier, sizes=[(16, 5), (17, 6)] if ctx.tier == "quick" else None):
+    for ci, (kind, N, psf, opts) in enumerate(RC.standard_configs(rng, ctx.tier, sizes=[(16, 5), (17, 6)] if ctx.tier == "quick" else None)):
         for i in range(4 if ctx.tier == "quick" else 12):
-            sc = RC.gen_scene(rng, kind, N, psf, types=[EXT[i % 5]], mode="single", pos_styles=("frac", "half", "int"), **opts)
+            sc = RC.gen_scene(rng, kind, N, psf, types=[EXT[(i + ci) % 5]], mode="single", pos_styles=("frac", "half", "int"), **opts)
             for k in sc["params"]:
                 if k.startswith("ellip"):
                     sc["params"][k] = float(rng.uniform(0.3, 0.8))      # orientation matters
@@ -61,7 +61,8 @@ def gen_cases(ctx, n_per_kind):
                 nr = (0.8, 2.5)
                 c0 = (N // 2 - 5, N // 2 + 4)
             else:
-                psf = [RC.gauss_psf(11, float(rng.uniform(1.1, 1.6))), RC.gauss_psf(11, 1.4, q=0.8), RC.smooth_asym_psf(rng, 11)][i % 3]
+                psf = [RC.gauss_psf(11, float(rng.uniform(1.1, 1.6))), RC.gauss_psf(12, 1.4, q=0.8), RC.smooth_asym_psf(rng, 11),
+                       RC.gauss_psf(12, float(rng.uniform(1.1, 1.6)))][(i + i // 5) % 4]
                 nr = (0.8, 6.0)
                 c0 = None
             sc = RC.gen_scene(rng, kind, N, psf, types=[t], mode="single", suffix="", pos_styles=("frac",), n_range=nr)
@@ -71,8 +72,16 @@ def gen_cases(ctx, n_per_kind):
                     p[k] = float(rng.uniform(1.5, N / 12))
                 if k.startswith("ellip"):
                     p[k] = float(rng.uniform(0.3, 0.8))
-            if t in ("doublesersic", "sersic_exp"):
-                p["ellip_2"] = p["ellip_1"]            # one well-defined axis ratio for the composite
+            if t in ("doublesersic", "sersic_exp") and (i // 5) % 2 == 0:
+                p["ellip_2"] = p["ellip_1"]            # one well-defined axis ratio for the composite (every other round: two different ones)
+            if np.asarray(psf).shape[0] % 2 == 0:
+                # an even stamp is centred between pixels: the renderers shift by the half pixel in Fourier space (band-limited
+                # interpolation of the pixel-integrated image), the reference shifts the analytic profile; the two agree for sampled
+                # sources only, so keep the minor axis ≥ 1 px here (under-sampled sources are covered with the odd stamps)
+                for k in list(p):
+                    if k.startswith("ellip"):
+                        r_k = p[k.replace("ellip", "r_eff")]
+                        p[k] = float(min(p[k], max(0.3, 1.0 - 1.0 / r_k)))
             p["flux"] = float(rng.uniform(50, 500))
             rr = max(v for k, v in p.items() if k.startswith("r_eff"))
             if c0:
